@@ -40,12 +40,19 @@ def run_probe(probe):
     cache = os.environ.get('VX_CACHE', '/var/tmp/vx-cache')
     repo = os.environ.get('VX_REPO', '/repo')
     crate = os.path.join(cache, 'replay-crate')
-    env = dict(os.environ, CARGO_NET_OFFLINE='true', CARGO_TARGET_DIR=os.path.join(cache, 'replay-target'))
+    env = dict(os.environ, CARGO_NET_OFFLINE='true', CARGO_TARGET_DIR=os.path.join(cache, 'replay-target'), CARGO_INCREMENTAL='0')
     env.pop('RUSTUP_TOOLCHAIN', None)
     os.makedirs(cache, exist_ok=True)
     import fcntl
     with open(os.path.join(cache, 'replay.lock'), 'w') as lk:
         fcntl.flock(lk, fcntl.LOCK_EX)
+        # every tree under check has its own path, so cargo keeps one set of artefacts per tree: bound the cache
+        try:
+            du = subprocess.run(['du', '-sm', env['CARGO_TARGET_DIR']], stdout=subprocess.PIPE, stderr=subprocess.DEVNULL, text=True).stdout.split()
+            if du and int(du[0]) > 3000:
+                shutil.rmtree(env['CARGO_TARGET_DIR'], ignore_errors=True)
+        except (ValueError, OSError):
+            pass
         shutil.rmtree(crate, ignore_errors=True)
         shutil.copytree(os.path.join(ROOT, 'replay', 'src'), os.path.join(crate, 'src'))
         with open(os.path.join(ROOT, 'replay', 'Cargo.toml')) as fh:
